@@ -30,6 +30,10 @@ def make(spec, lower, upper):
         g = make(spec["of"], lower, upper)
         a, w, big = spec["a"], spec["w"], spec["big"]
         return lambda y: (big if a < unit(y)[0] < a + w else g(y))
+    if k == "ticks":         # integer-valued costs BEYOND 2**53 (Python ints): neighbouring values round to the same double
+        g = make(spec["of"], lower, upper)
+        base, sc = int(spec["base"]), spec["scale"]
+        return lambda y: base + int(round(sc * g(y)))
     if k == "offset":        # c + s * g(y): values that are large compared with their variation
         g = make(spec["of"], lower, upper)
         c, sc = spec["c"], spec["s"]
